@@ -138,7 +138,8 @@ func Run(c *core.Ctx) {
 		"are opaque steps; instrumented: goa's pkg, http, http/middleware, middleware AND the generated service, views, server and client packages of every design")
 	c.Note("family_b_bounds", "2 threads x 1 request over a covering set of request pairs per mounted service (per method: every pair of request classes and each class with itself; "+
 		"across methods: a ring of valid x valid and valid x error), every schedule with <= 2 preemptions (quick); "+
-		"thorough: ALL pairs of the request universe of each service with <= 2 preemptions AND in all interleavings (sleep sets), and a covering set of triples (3 threads) with <= 2 preemptions")
+		"thorough: ALL pairs of the request universe of each service in ALL interleavings (complete DFS with sleep sets; the covering set additionally with <= 2 preemptions as a cross-check of the two searches), "+
+		"and a covering set of triples (3 threads) with <= 2 preemptions; deep hooks")
 	b, corpus := build(c, false)
 	if b == nil {
 		return
